@@ -13,61 +13,70 @@
 (*   H2       route handler: reads params / injected tag, builds a URL,    *)
 (*            writes through its own writer                                *)
 (* Dev (negative controls): "SHAREDSLICE" Ctx appends into the shared      *)
-(* backing array; "NOONCE" Render is check-then-set without a guard.       *)
+(* backing array; "NOONCE" Render is check-then-set without a guard;       *)
+(* "SHAREDRENDER" the Renderer middleware re-binds ONE render object       *)
+(* instead of creating one per request.                                    *)
 (***************************************************************************)
 EXTENDS ConcurrentP, Json
 CONSTANTS NProc, Dev, EmitCases
 Procs == 1..NProc
 Vals == {"v1", "v2"}
-VARIABLES req, pc, params, hl, scope, out, arr, cache, seen, W, sched
-vars == <<req, pc, params, hl, scope, out, arr, cache, seen, W, sched>>
+VARIABLES req, pc, params, hl, scope, out, arr, cache, seen, W, sched,
+          rend      \* which request's writer the Render object seen by request p writes to (0 = the one shared cell)
+vars == <<req, pc, params, hl, scope, out, arr, cache, seen, W, sched, rend>>
 
-ReqU == { [id |-> p, route |-> k, val |-> v] : p \in Procs, k \in {"static", "param", "opt"}, v \in Vals }
+ReqU == { [id |-> p, route |-> k, val |-> v] : p \in Procs, k \in {"static", "param", "render"}, v \in Vals }
 Init == /\ req \in { f \in [Procs -> ReqU] : \A p \in Procs : f[p].id = p }
         /\ pc = [p \in Procs |-> "lookup"] /\ params = [p \in Procs |-> <<>>]
         /\ hl = [p \in Procs |-> <<>>] /\ scope = [p \in Procs |-> {}] /\ out = [p \in Procs |-> <<>>]
         /\ arr = <<"mw1", "free">>                  \* f.handlers with one spare slot
         /\ cache = [k \in RouteKinds |-> "unset"] /\ seen = [p \in Procs |-> FALSE]
-        /\ W = {} /\ sched = <<>>
+        /\ W = {} /\ sched = <<>> /\ rend = [p \in 0..NProc |-> p]
 
 Lookup(p) == /\ pc[p] = "lookup"
              /\ params' = [params EXCEPT ![p] = [route |-> req[p].route, val |-> req[p].val]]
              /\ pc' = [pc EXCEPT ![p] = "render"]
              /\ sched' = Append(sched, p)
-             /\ UNCHANGED <<req, hl, scope, out, arr, cache, seen, W>>
+             /\ UNCHANGED <<req, hl, scope, out, arr, cache, seen, W, rend>>
 \* sync.Once: test and set in one atomic step; only the winner writes
 RenderOnce(p) == /\ pc[p] = "render" /\ "NOONCE" \notin Dev
                  /\ cache' = [cache EXCEPT ![req[p].route] = "set"]
                  /\ pc' = [pc EXCEPT ![p] = "ctx"]
-                 /\ UNCHANGED <<req, params, hl, scope, out, arr, seen, W, sched>>
+                 /\ UNCHANGED <<req, params, hl, scope, out, arr, seen, W, sched, rend>>
 \* negative control: `if s.str == "" { s.str = render() }`
 RenderCheck(p) == /\ pc[p] = "render" /\ "NOONCE" \in Dev
                   /\ seen' = [seen EXCEPT ![p] = cache[req[p].route] = "set"]
                   /\ pc' = [pc EXCEPT ![p] = "renderset"]
-                  /\ UNCHANGED <<req, params, hl, scope, out, arr, cache, W, sched>>
+                  /\ UNCHANGED <<req, params, hl, scope, out, arr, cache, W, sched, rend>>
 RenderSet(p) == /\ pc[p] = "renderset"
                 /\ IF seen[p] THEN UNCHANGED <<cache, W>>
                    ELSE cache' = [cache EXCEPT ![req[p].route] = "set"] /\ W' = W \cup {<<req[p].route, p>>}
                 /\ pc' = [pc EXCEPT ![p] = "ctx"]
-                /\ UNCHANGED <<req, params, hl, scope, out, arr, seen, sched>>
+                /\ UNCHANGED <<req, params, hl, scope, out, arr, seen, sched, rend>>
 Ctx(p) == /\ pc[p] = "ctx"
           /\ IF "SHAREDSLICE" \in Dev
              THEN /\ arr' = [arr EXCEPT ![2] = req[p].route]         \* append(f.handlers, ...) reuses the spare slot
                   /\ hl' = [hl EXCEPT ![p] = <<"alias">>] /\ W' = W \cup {<<"arr", p>>}
              ELSE /\ hl' = [hl EXCEPT ![p] = <<"mw1", req[p].route>>] /\ UNCHANGED <<arr, W>>
           /\ pc' = [pc EXCEPT ![p] = "h1"]
-          /\ UNCHANGED <<req, params, scope, out, cache, seen, sched>>
+          /\ UNCHANGED <<req, params, scope, out, cache, seen, sched, rend>>
+\* middleware: c.Map(tag), then Renderer: a FRESH render object bound to this request's writer
 H1(p) == /\ pc[p] = "h1"
          /\ scope' = [scope EXCEPT ![p] = @ \cup {p}]
+         /\ IF "SHAREDRENDER" \in Dev
+            THEN rend' = [rend EXCEPT ![0] = p] /\ W' = W \cup {<<"rend", p>>}     \* r.responseWriter = c.ResponseWriter() on the one object
+            ELSE UNCHANGED <<rend, W>>
          /\ pc' = [pc EXCEPT ![p] = "h2"] /\ sched' = Append(sched, p)
-         /\ UNCHANGED <<req, params, hl, out, arr, cache, seen, W>>
+         /\ UNCHANGED <<req, params, hl, out, arr, cache, seen>>
 H2(p) == /\ pc[p] = "h2"
          /\ LET h == IF hl[p] = <<"alias">> THEN arr[2] ELSE hl[p][2]
                 tg == CHOOSE t \in scope[p] : TRUE
             IN out' = [out EXCEPT ![p] = [h |-> h, val |-> IF HasVal(params[p].route) THEN params[p].val ELSE "",
-                                          tag |-> tg, url |-> "/p/" \o params[p].val, wid |-> p]]
+                                          tag |-> tg, url |-> "/p/" \o params[p].val,
+                                          \* a "render" route writes through the Render object it was given
+                                          wid |-> IF req[p].route = "render" /\ "SHAREDRENDER" \in Dev THEN rend[0] ELSE p]]
          /\ pc' = [pc EXCEPT ![p] = "done"] /\ sched' = Append(sched, p)
-         /\ UNCHANGED <<req, params, hl, scope, arr, cache, seen, W>>
+         /\ UNCHANGED <<req, params, hl, scope, arr, cache, seen, W, rend>>
 Next == \E p \in Procs : Lookup(p) \/ RenderOnce(p) \/ RenderCheck(p) \/ RenderSet(p) \/ Ctx(p) \/ H1(p) \/ H2(p)
 Spec == Init /\ [][Next]_vars
 
@@ -79,5 +88,5 @@ NoRace == \A a, b \in W : a[1] = b[1] => a[2] = b[2]
 ReadOnlyAfterSetup == W = {} /\ arr = <<"mw1", "free">>
 AllDone == \A p \in Procs : pc[p] = "done"
 EmitCase == (EmitCases /\ AllDone) => PrintT("CASE " \o ToJson([reqs |-> [p \in Procs |-> req[p]], sched |-> sched]))
-View == <<req, pc, params, hl, scope, out, arr, cache, seen, W>>
+View == <<req, pc, params, hl, scope, out, arr, cache, seen, W, rend>>
 ====
